@@ -4,6 +4,7 @@ import SqlgrepModel.Drivers.Run
 import SqlgrepModel.Drivers.Reader
 import SqlgrepModel.Drivers.Print
 import SqlgrepModel.Drivers.Extract
+import SqlgrepModel.Drivers.ParseExpr
 /- Line protocol driver: `<kind> <payload…>` per line in, one answer line out. -/
 open Sqlgrep
 
@@ -21,6 +22,7 @@ def dispatch (line : String) : String :=
     | "joinlines" => Drivers.Reader.handleJoin args
     | "print" => Drivers.Print.handle args
     | "extract" => Drivers.Extract.handle args
+    | "pexpr" => Drivers.ParseExpr.handle args
     | _ => "unknown-kind"
   | _ => "bad-line"
 
